@@ -718,24 +718,33 @@ func (o *baseObject) _defineOwnProperty(name unistring.String, existingValue Val
 
 	if descr.Value != nil {
 		existing.value = descr.Value
+	}
+
+	if descr.Value != nil || descr.Writable != FLAG_NOT_SET {
+		if existing.accessor {
+			// accessor -> data: [[Get]]/[[Set]] are dropped, [[Writable]] defaults to false
+			existing.accessor = false
+			if descr.Writable == FLAG_NOT_SET {
+				existing.writable = false
+			}
+		}
 		existing.getterFunc = nil
 		existing.setterFunc = nil
 	}
 
-	if descr.Value != nil || descr.Writable != FLAG_NOT_SET {
-		existing.accessor = false
+	if descr.Getter != nil || descr.Setter != nil {
+		// data -> accessor: [[Value]]/[[Writable]] are dropped
+		existing.value = nil
+		existing.writable = false
+		existing.accessor = true
 	}
 
 	if descr.Getter != nil {
 		existing.getterFunc = propGetter(o.val, descr.Getter, o.val.runtime)
-		existing.value = nil
-		existing.accessor = true
 	}
 
 	if descr.Setter != nil {
 		existing.setterFunc = propSetter(o.val, descr.Setter, o.val.runtime)
-		existing.value = nil
-		existing.accessor = true
 	}
 
 	if !existing.accessor && existing.value == nil {
